@@ -1605,7 +1605,15 @@ void SPxMainSM<R>::MultiAggregationPS::execute(VectorBase<R>& x, VectorBase<R>& 
       z = 0.0;
 
    x[m_j] = z * scale / aij;
-   s[m_i] = 0.0;
+   // the aggregated row is active at the side that was used for the aggregation
+   s[m_i] = m_const;
+
+   // the other rows containing x_j were replaced by (row - a_rj / a_ij * aggregated row) and their sides were shifted
+   for(int k = 0; k < m_col.size(); ++k)
+   {
+      if(m_col.index(k) != m_i)
+         s[m_col.index(k)] += m_col.value(k) * (m_const / aij);
+   }
 
 #ifndef NDEBUG
 
